@@ -391,6 +391,16 @@ func (x *EvalCtx) evalCall(e *Expr) TV {
 			t = slArr(t)
 		}
 		return TV{Le(c.nextRef(x.old), t), tyBool}
+	case "freshSinceEntry":
+		if x.entrySt == nil {
+			efail("freshSinceEntry outside a loop clause")
+		}
+		a := x.eval(e.Args[0])
+		t := a.T
+		if t.Sort == SSlice {
+			t = slArr(t)
+		}
+		return TV{Le(c.nextRef(x.entrySt), t), tyBool}
 	case "allocated":
 		a := x.eval(e.Args[0])
 		t := a.T
